@@ -397,6 +397,26 @@ def _run_main(prog, tier):
                 obs.append(formula_ob("kernel-form", qual(ci, fn), total, want, REL, fn.lineno,
                                       what="cdf = sum over kept samples of (1 + erf((x-s)/(sqrt2 h))) / 2N + (samples dropped below)/N"))
 
+    # ---------------------------------------------------------------- the estimator's state is built once, together
+    # bandwidth, scale factors, cut-off, slice table, offsets, tree and sample are set by the constructor only: a method that changes
+    # some of them afterwards (a bandwidth "rescale") leaves the others describing another estimate
+    STATE = ("h", "q", "norm", "cutoff", "slices", "cdf_offsets", "tree", "sample", "max_cvs", "lwr_limit", "upr_limit")
+    late = []
+    for mname_, fn_ in ci.methods.items():
+        if mname_ == "__init__" or not fn_.args.args:
+            continue
+        sn_ = fn_.args.args[0].arg
+        for st_ in ast.walk(fn_):
+            tg_ = st_.targets if isinstance(st_, ast.Assign) else [st_.target] if isinstance(st_, (ast.AugAssign, ast.AnnAssign)) else []
+            for t_ in tg_:
+                for el_ in (t_.elts if isinstance(t_, ast.Tuple) else [t_]):
+                    b_ = el_
+                    while isinstance(b_, ast.Subscript):
+                        b_ = b_.value
+                    if isinstance(b_, ast.Attribute) and isinstance(b_.value, ast.Name) and b_.value.id == sn_ and b_.attr in STATE:
+                        late.append(f"{mname_} line {st_.lineno}: `{U(st_)[:70]}`")
+    obs.append(struct_ob("region-tables", qual(ci, init) + "[state-set-by-constructor-only]", not late,
+                         "part of the estimator's state is changed after construction: " + "; ".join(late[:2]), REL, init.lineno, tier="F"))
     # ---------------------------------------------------------------- tables derived from the final bandwidth
     from .common import final_state_obligations
     obs.extend(final_state_obligations(prog, "region-tables", "GaussianKDE", REL, {"h", "sample"}))
@@ -480,7 +500,10 @@ def _run_main(prog, tier):
                 f"{xp}[{gname}, None] - self.sample[None, self.slices[{rname}]]",
                 f"{xp}[{gname}, None] - self.sample[self.slices[{rname}]][None, :]",          # the kept window taken first (1-D sample)
                 f"{xp}[{gname}][:, None] - self.sample[None, self.slices[{rname}]]",
-                f"{xp}[{gname}][:, None] - self.sample[self.slices[{rname}]][None, :]"))
+                f"{xp}[{gname}][:, None] - self.sample[self.slices[{rname}]][None, :]",
+                # a column of query points minus the (1-D) window: numpy lines the window up along the last axis by itself
+                f"{xp}[{gname}, None] - self.sample[self.slices[{rname}]]",
+                f"{xp}[{gname}][:, None] - self.sample[self.slices[{rname}]]"))
         both.append(okl)
     obs.append(struct_ob("region-tables", f"{ci.module.name}.GaussianKDE[pdf/cdf siblings]", all(both),
                          "pdf and cdf must group the query points with the same tree look-up and use the same slice table", REL,
